@@ -147,6 +147,8 @@ class CallMixin:
             return self.apply_contract(c, args, kw, st, cx, node)
         if f.kind == "contract":
             raise Unsupported("no contract for %s" % qn)
+        if f.kind == "external" and qn in ("copy.copy", "copy"):
+            return self.copy_copy(args[0], st, cx)
         if f.kind == "external":
             raise Unsupported("call of external %s without an assumed contract" % qn)
         if f.kind == "repo":
@@ -318,6 +320,24 @@ class CallMixin:
                 self.axioms.extend(s0.pc)
         ts = [term_of(a, s) for a, s in zip(args, asorts)]
         return mk_val(f(*ts), rsort)
+
+    def copy_copy(self, v, st, cx):
+        "copy.copy: values are immutable in the model; an object gets a fresh shallow copy (same class, same fields)"
+        if not isinstance(v, VRef):
+            return [(st, v)]
+        st = st.copy()
+        new = VRef(st.top, v.cls, exact=v.exact)
+        st.pc.append(z3.Select(self.H_cls, st.top) == self.cls_of(v))
+        st.top = st.top + 1
+        keys = {}
+        for name, so in self.reg.fields.items():
+            keys[name] = so
+        for (c, name), so in self.reg.class_fields.items():
+            keys["%s@%s" % (name, c.split(".")[-1])] = so
+        for k, so in keys.items():
+            a = self.heap_arr(st, k, so)
+            st.heap[k] = z3.Store(a, new.t, z3.Select(a, v.t))
+        return [(st, new)]
 
     # ------------------------------------------------------------ construction
     def construct(self, t: VType, args, kw, st, cx, node=None):
